@@ -1192,9 +1192,8 @@ rrul_fill_mly(echs_instant_t *restrict tgt, size_t nti, rrulsp_t rr)
 
 		m -= tmp-- > 0;
 		m -= tmp / 30;
-		y -= m <= 0;
-		m += m > 0 ? 0 : 12;
-		m = m > 0 ? m : 1;
+		for (; m <= 0; m += 12, y--);
+		for (; m > 12; m -= 12, y++);
 	}
 
 	/* get m on track */
